@@ -146,6 +146,12 @@ impl Prop for C19 {
         let src_path = format!("{}/source.py", dir);
         let out_path = format!("{}/out.json", dir);
         let _ = std::fs::remove_file(&out_path);
+        // sometimes the --output file already exists and is longer than what will be written
+        let stale = "stale content of an earlier run ".repeat(20_000);
+        let pre_existing = with_output && rng.chance(1, 3);
+        if pre_existing {
+            let _ = std::fs::write(&out_path, &stale);
+        }
         if std::fs::write(&tsg_path, &text).is_err() || std::fs::write(&src_path, &source).is_err() {
             out.inconclusive("harness: cannot write temporary files");
             return;
@@ -243,7 +249,9 @@ impl Prop for C19 {
                     out.violation("C19:graph-printed-on-failure", &format!("non-zero exit ({}) but stdout is not empty", why), cj());
                     return;
                 }
-                if file_content.as_ref().map(|s| !s.trim().is_empty()).unwrap_or(false) {
+                if pre_existing && file_content.as_deref() == Some(stale.as_str()) {
+                    // untouched: fine
+                } else if file_content.as_ref().map(|s| !s.trim().is_empty()).unwrap_or(false) {
                     out.violation("C19:output-file-written-on-failure", &format!("non-zero exit ({}) but the output file has content", why), cj());
                     return;
                 }
@@ -286,6 +294,9 @@ impl Prop for C19 {
                         return;
                     }
                     out.feat(&format!("ok:json:{}", place));
+                    if pre_existing {
+                        out.feat("ok:json_over_existing_longer_file");
+                    }
                     if quiet {
                         out.feat("ok:json_with_quiet");
                     }
